@@ -45,7 +45,7 @@ theorem close_recovers (e : Engine) (h : e.state ≠ .disconnected) : (e.handleC
     operation and every queue as it was** (they survive for the next connection or for failure by policy). -/
 theorem decode_error_keeps_operations (e : Engine) (bs : Bytes) (hs : e.state = .connected ∨ e.state = .pendingDisconnect)
     (x : DecErr)
-    (hd : (decodeBytes { version := e.cfg.version, maxSize := e.cfg.connect.maximumPacketSize.getD maxPacket } e.dec bs).err = some x) :
+    (hd : (decodeBytes { version := e.cfg.version, maxSize := e.inboundMax } e.dec bs).err = some x) :
     let e' := (e.handleData bs).1
     e'.state = .halted ∧ e'.ops = e.ops ∧ e'.userQ = e.userQ ∧ e'.resubQ = e.resubQ ∧ e'.highQ = e.highQ ∧
     e'.pendingPub = e.pendingPub ∧ e'.pendingNonPub = e.pendingNonPub ∧ e'.outBytes = e.outBytes ∧ e'.outComps = e.outComps ∧
@@ -175,5 +175,17 @@ example : (step (step (Engine.new {}) (.opened 0 100)).1 (.service 0 3 0)).2.res
 
 /-- non-vacuity: the same history with a 64-byte buffer writes the CONNECT -/
 example : (step (step (Engine.new {}) (.opened 0 100)).1 (.service 0 64 0)).2.result = .ok := by decide
+
+/-- **The inbound size limit is in force only where the CONNECT announces it.**  Under MQTT 3.1.1 - whose CONNECT has no
+    Maximum Packet Size - the decoder is given the protocol's own limit whatever the connect options say, so a server that
+    sends a large packet follows the protocol and is not reported as violating it; under MQTT 5 the configured value (sent in
+    the CONNECT) is the limit, and none configured means the protocol's limit. -/
+theorem inbound_limit_only_where_announced (e : Engine) :
+    (e.cfg.version = .v311 → e.inboundMax = maxPacket) ∧
+    (e.cfg.version = .v5 → e.inboundMax = e.cfg.connect.maximumPacketSize.getD maxPacket) := by
+  unfold Engine.inboundMax
+  constructor
+  · intro h; rw [h]; rfl
+  · intro h; rw [h]; rfl
 
 end GV.Props.C11
